@@ -4,6 +4,9 @@ import (
 	"bytes"
 	"compress/gzip"
 	"encoding/binary"
+	"fmt"
+	"strconv"
+	"strings"
 
 	"github.com/xelaj/mtproto/internal/encoding/tl"
 	"github.com/xelaj/mtproto/internal/mtproto/objects"
@@ -233,3 +236,46 @@ func AckedIDs(f Frame) []int64 {
 // everything except msgs_ack (and containers, which this client never sends) needs an
 // acknowledgement and must carry an odd seq_no.
 func IsContentRelated(f Frame) bool { return f.Crc != CrcMsgsAck && f.Crc != CrcMsgContainer }
+
+// ---- rpc_error answers ---------------------------------------------------------------------------------------
+
+// realErrors: (code, text) pairs real servers send (core.telegram.org/api/errors and what clients meet in the
+// field); "%d" carries a number.  PHONE_MIGRATE is left out: the client acts on it (C17 is about that).
+var realErrors = []struct {
+	Code int32
+	Text string
+}{
+	{-503, "Timeout"}, {500, "INTERNAL"}, {500, "RPC_CALL_FAIL"}, {420, "FLOOD_WAIT_%d"}, {420, "SLOWMODE_WAIT_%d"},
+	{401, "AUTH_KEY_UNREGISTERED"}, {401, "SESSION_REVOKED"}, {401, "SESSION_PASSWORD_NEEDED"}, {403, "CHAT_WRITE_FORBIDDEN"},
+	{406, "AUTH_KEY_DUPLICATED"}, {400, "PEER_ID_INVALID"}, {400, "FILE_PART_%d_MISSING"}, {303, "FILE_MIGRATE_%d"},
+	{303, "NETWORK_MIGRATE_%d"}, {303, "USER_MIGRATE_%d"}, {400, "MSG_WAIT_FAILED"}, {500, "Timeout"}, {-500, "No workers running"},
+	{400, "CONNECTION_NOT_INITED"}, {-404, "AUTH_KEY_INVALID"}, {400, "INPUT_METHOD_INVALID_%d"}, {0, "OK"}, {2147483647, "X"}, {-2147483648, "Y_%d"},
+}
+
+// ErrOf is the rpc_error answering the request with token p: for three tokens out of four the synthetic
+// (400 + p mod 100, "VERIF_<p>"), which names the request it answers; for the fourth a real-world error.
+func ErrOf(p int64) (int32, string) {
+	if p%4 != 3 {
+		return int32(400 + p%100), "VERIF_" + strconv.FormatInt(p, 10)
+	}
+	e := realErrors[int((p/4)%int64(len(realErrors)))]
+	if strings.Contains(e.Text, "%d") {
+		return e.Code, fmt.Sprintf(e.Text, p%100000+1)
+	}
+	return e.Code, e.Text
+}
+
+// IsErrOf: does (code, message) - as the client's error value shows them, the number possibly replaced by X and
+// moved aside - stand for ErrOf(p)?
+func IsErrOf(p int64, code int, message string) bool {
+	c, t := ErrOf(p)
+	if int(c) != code {
+		return false
+	}
+	if message == t {
+		return true
+	}
+	// NAME_<n>[_TAIL] shown as NAME_X[_TAIL]
+	num := strconv.FormatInt(p%100000+1, 10)
+	return p%4 == 3 && strings.Contains(t, num) && message == strings.Replace(t, num, "X", 1)
+}
